@@ -118,7 +118,7 @@ SchemaAssumptions ==
         ~SHas(SupSchemaDef[n].require, o) /\ ~SHas(SupSchemaDef[n].remove, o)
   /\ \A n \in SSet(SupIndex) : ~SupSchemaDef[n].auto
 
-Fx == [transitive |-> TRUE, toposort |-> TRUE, exitfix |-> TRUE, loopfix |-> TRUE,
+Fx == [transitive |-> TRUE, toposort |-> TRUE, exitfix |-> TRUE, selffix |-> TRUE, loopfix |-> TRUE,
        endfix |-> TRUE]
 
 Hs == [on |-> TRUE,
